@@ -68,6 +68,11 @@ type Op struct {
 	// library (see DESIGN.md §4). Quirk ops are explored in a separate
 	// pass so that one known finding does not flood every composition.
 	QuirkOf string
+	// QuirkFor restricts a quirk op to the listed properties (empty: all).
+	QuirkFor []string
+	// ExtraOnly ops are reachable by name (hand-picked Extras terms, sweeps)
+	// but are not part of the enumerated spaces.
+	ExtraOnly bool
 }
 
 // Term is a constructor expression.
@@ -366,7 +371,11 @@ func (t *Term) String() string {
 	}
 	for _, s := range t.S {
 		b.WriteString(sep)
-		fmt.Fprintf(&b, "%q", s)
+		if len(s) > 200 {
+			fmt.Fprintf(&b, "%q…(%d bytes)", s[:24], len(s))
+		} else {
+			fmt.Fprintf(&b, "%q", s)
+		}
 		sep = ", "
 	}
 	for _, s := range t.Side {
